@@ -17,6 +17,9 @@ impl Utf8Accum {
 
         if byte >= 0xF8 {
             return None;
+        } else if byte >= 0xF5 {
+            // would start a value above U+10FFFF
+            self.expected = 0;
         } else if byte >= 0xF0 {
             // this is first octet of 4-byte value
             self.buffer[0] = byte;
@@ -27,13 +30,30 @@ impl Utf8Accum {
             self.buffer[0] = byte;
             self.partial = 1;
             self.expected = 2;
-        } else if byte >= 0xC0 {
+        } else if byte >= 0xC2 {
             // this is first octet of 2-byte value
             self.buffer[0] = byte;
             self.partial = 1;
             self.expected = 1;
+        } else if byte >= 0xC0 {
+            // 0xC0 and 0xC1 can only start an overlong encoding
+            self.expected = 0;
         } else if byte >= 0x80 {
             if self.expected > 0 {
+                // second octet is restricted for some first octets, otherwise
+                // overlong forms, surrogates and values above U+10FFFF would pass
+                let allowed = self.partial != 1
+                    || match self.buffer[0] {
+                        0xE0 => byte >= 0xA0,
+                        0xED => byte < 0xA0,
+                        0xF0 => byte >= 0x90,
+                        0xF4 => byte < 0x90,
+                        _ => true,
+                    };
+                if !allowed {
+                    self.expected = 0;
+                    return None;
+                }
                 // this is one of other octets of multi-byte value
                 self.buffer[self.partial as usize] = byte;
                 self.partial += 1;
